@@ -349,6 +349,9 @@ fn write_data_to_stream<F: Read + Write + Seek>(
     debug_assert!(buf_offset_from_start <= old_stream_len);
     let new_stream_len =
         old_stream_len.max(buf_offset_from_start + buf.len() as u64);
+    // A mini chain that the stream stops using is released only after the
+    // directory entry has been updated (see below).
+    let mut old_mini_chain_to_free = None;
     let new_start_sector = if old_start_sector == consts::END_OF_CHAIN {
         // Case 1: The stream has no existing chain.  The stream is empty, and
         // we are writing at the start.
@@ -394,7 +397,7 @@ fn write_data_to_stream<F: Read + Write + Seek>(
             let mut tmp = vec![0u8; buf_offset_from_start as usize];
             let mut chain = minialloc.open_mini_chain(old_start_sector)?;
             chain.read_exact(&mut tmp)?;
-            chain.free()?;
+            old_mini_chain_to_free = Some(old_start_sector);
             let mut chain = minialloc
                 .open_chain(consts::END_OF_CHAIN, SectorInit::Zero)?;
             chain.write_all(&tmp)?;
@@ -417,7 +420,14 @@ fn write_data_to_stream<F: Read + Write + Seek>(
     minialloc.with_dir_entry_mut(stream_id, |dir_entry| {
         dir_entry.start_sector = new_start_sector;
         dir_entry.stream_len = new_stream_len;
-    })
+    })?;
+    // Only now release the chain that the stream no longer uses: if anything
+    // above fails, the directory entry must not be left referring to sectors
+    // that have been freed and may be handed out to another stream.
+    if let Some(start_mini_sector) = old_mini_chain_to_free {
+        minialloc.free_mini_chain(start_mini_sector)?;
+    }
+    Ok(())
 }
 
 /// Overwrites the bytes in `start..end` of a chain with zeros.
@@ -463,6 +473,10 @@ fn resize_stream<F: Read + Write + Seek>(
         (dir_entry.start_sector, dir_entry.stream_len)
     };
     check_stream_len(minialloc.version(), new_stream_len)?;
+    // A chain that the stream stops using is released only after the
+    // directory entry has been updated (see below).
+    let mut old_mini_chain_to_free = None;
+    let mut old_chain_to_free = None;
     let new_start_sector = if old_start_sector == consts::END_OF_CHAIN {
         // Case 1: The stream has no existing chain.  We will allocate a new
         // chain that is all zeroes.
@@ -492,7 +506,7 @@ fn resize_stream<F: Read + Write + Seek>(
         // Case 2: The stream currently exists in a mini chain.
         if new_stream_len == 0 {
             // Case 2a: The new length is zero.  Free the existing mini chain.
-            minialloc.free_mini_chain(old_start_sector)?;
+            old_mini_chain_to_free = Some(old_start_sector);
             consts::END_OF_CHAIN
         } else if new_stream_len < consts::MINI_STREAM_CUTOFF as u64 {
             // Case 2b: The new length is still small enough to fit in a mini
@@ -514,7 +528,7 @@ fn resize_stream<F: Read + Write + Seek>(
             let mut tmp = vec![0u8; old_stream_len as usize];
             let mut chain = minialloc.open_mini_chain(old_start_sector)?;
             chain.read_exact(&mut tmp)?;
-            chain.free()?;
+            old_mini_chain_to_free = Some(old_start_sector);
             let mut chain = minialloc
                 .open_chain(consts::END_OF_CHAIN, SectorInit::Zero)?;
             chain.write_all(&tmp)?;
@@ -525,7 +539,7 @@ fn resize_stream<F: Read + Write + Seek>(
         // Case 3: The stream currently exists in a regular chain.
         if new_stream_len == 0 {
             // Case 3a: The new length is zero.  Free the existing chain.
-            minialloc.free_chain(old_start_sector)?;
+            old_chain_to_free = Some(old_start_sector);
             consts::END_OF_CHAIN
         } else if new_stream_len < consts::MINI_STREAM_CUTOFF as u64 {
             // Case 3b: The new length is small enough to fit in a mini chain.
@@ -535,7 +549,7 @@ fn resize_stream<F: Read + Write + Seek>(
             let mut chain =
                 minialloc.open_chain(old_start_sector, SectorInit::Zero)?;
             chain.read_exact(&mut tmp)?;
-            chain.free()?;
+            old_chain_to_free = Some(old_start_sector);
             let mut chain = minialloc.open_mini_chain(consts::END_OF_CHAIN)?;
             chain.write_all(&tmp)?;
             chain.start_sector_id()
@@ -566,7 +580,16 @@ fn resize_stream<F: Read + Write + Seek>(
     minialloc.with_dir_entry_mut(stream_id, |dir_entry| {
         dir_entry.start_sector = new_start_sector;
         dir_entry.stream_len = new_stream_len;
-    })
+    })?;
+    // Only now release the chain that the stream no longer uses (see
+    // write_data_to_stream).
+    if let Some(start_mini_sector) = old_mini_chain_to_free {
+        minialloc.free_mini_chain(start_mini_sector)?;
+    }
+    if let Some(start_sector) = old_chain_to_free {
+        minialloc.free_chain(start_sector)?;
+    }
+    Ok(())
 }
 
 //===========================================================================//
